@@ -332,6 +332,47 @@ def covered_by_key(p, key_paths):
     return False
 
 
+MUTATORS = {"append", "extend", "insert", "update", "setdefault", "pop", "popitem", "clear", "add", "remove", "discard", "sort", "reverse", "fill", "resize", "put"}
+
+
+def mutable_default_obligations(P, G):
+    """A default argument is evaluated once, when the function is defined: a mutable default that the function writes to (or
+    hands out) is state shared by all calls that rely on the default - whatever an earlier call left in it is seen by the next"""
+    obs = []
+    for key in G.order:
+        mod, fn, encl = G.nodes[key]
+        a = fn.args
+        pos = a.posonlyargs + a.args
+        pairs = list(zip(pos[len(pos) - len(a.defaults):], a.defaults)) + [(p, d) for p, d in zip(a.kwonlyargs, a.kw_defaults) if d is not None]
+        for p, d in pairs:
+            mutable = isinstance(d, (ast.Dict, ast.List, ast.Set, ast.ListComp, ast.DictComp, ast.SetComp)) or (
+                isinstance(d, ast.Call) and (dotted_name(d.func) or "").split(".")[-1] in ("dict", "list", "set", "defaultdict", "OrderedDict", "zeros", "empty", "ones", "array", "bytearray"))
+            if not mutable:
+                continue
+            name = p.arg
+            uses = []
+            parents = {}
+            for n in ast.walk(fn):
+                for ch in ast.iter_child_nodes(n):
+                    parents[id(ch)] = n
+            aliases = {name}
+            for n in ast.walk(fn):
+                if isinstance(n, ast.Name) and n.id in aliases:
+                    par = parents.get(id(n))
+                    if isinstance(par, ast.Subscript) and par.value is n and isinstance(par.ctx, (ast.Store, ast.Del)):
+                        uses.append("item store (line %d)" % n.lineno)
+                    elif isinstance(par, ast.AugAssign) and par.target is n:
+                        uses.append("in-place update (line %d)" % n.lineno)
+                    elif isinstance(par, ast.Attribute) and par.value is n and par.attr in MUTATORS and isinstance(parents.get(id(par)), ast.Call):
+                        uses.append("%s() (line %d)" % (par.attr, n.lineno))
+                    elif isinstance(par, ast.Return) or (isinstance(par, ast.Tuple) and isinstance(parents.get(id(par)), ast.Return)):
+                        uses.append("returned to the caller (line %d)" % n.lineno)
+            site = "src/%s.py::%s" % (mod.name.replace(".", "/"), fn.name)
+            obs.append(req_ob("R-STATE", site, "the mutable default of parameter %s is never written to or handed out (it is one object shared by every call)" % name, not uses,
+                              detail="; ".join(uses[:3]) or None, key={"state": "%s.%s(%s=)" % (mod.name, fn.name, name)}))
+    return obs
+
+
 def memo_obligations(P, G):
     """every keyed store into module-level or closure state on the solve path is fully keyed"""
     obs = []
@@ -753,6 +794,7 @@ def solve_state_obligations(P):
         out.append(req_ob("R-STATE", "src/%s.py::%s" % (modname.replace(".", "/"), fname), "module state %s.%s accessed on the solve path is a confirmed, value-neutral instance" % st, ok,
                           detail=ALLOWED_STATE.get(st) if ok else "new module-level state on the solve path: a later solve can observe an earlier one unless the state is completely keyed (see R-MEMO)", key={"state": "%s.%s" % st}))
     out.extend(memo)
+    out.extend(mutable_default_obligations(P, G))
     return out, G
 
 
@@ -1025,7 +1067,7 @@ def driver_obligations(P):
                     out.append(GenList(I.call(f, [t.elem], {}, node, {}), t.ivar, t.rng))
                 else:
                     out.append(I.call(f, [t], {}, node, {}))
-            return Tup(out, "list")
+            return Tup(out, "iterator")  # Executor.map hands back a one-shot iterator over the results, in task order
 
         def submit(I, args, kwargs, node):
             # Executor.submit(f, *args): the call happens in a worker; the Future carries its value
